@@ -361,6 +361,22 @@ func runCheck(id, tier string) int {
 				raceSeen[j] = strings.Contains(rout, "DATA RACE")
 			}
 		}
+		// a schedule-dependent counterexample that the operation-by-operation replay does
+		// not reproduce (its interleaving cuts through an operation) gets a second chance:
+		// the harness is run with real goroutines again and again for a while
+		for j, i := range idxs {
+			if pends[i].v.ID == "datarace" || !tapeHasSchedule(&tapes[j]) {
+				continue
+			}
+			if o := res[j].Outcome; o == "assert" || o == "panic" || o == "hang" {
+				continue
+			}
+			if sres, _, serr := RunNative(vd, rel, funcsByRel, []NativeTape{tapes[j]}, false, 20); serr == nil && len(sres) == 1 {
+				if o := sres[0].Outcome; o == "assert" || o == "panic" {
+					res[j] = sres[0]
+				}
+			}
+		}
 		for j, i := range idxs {
 			v := pends[i].v
 			nr := res[j]
@@ -472,6 +488,15 @@ func runCheck(id, tier string) int {
 }
 
 func lastCoverOf(r *HarnessResult) string { return "" }
+
+func tapeHasSchedule(t *NativeTape) bool {
+	for _, v := range t.Values {
+		if v.Kind == "sched" {
+			return true
+		}
+	}
+	return false
+}
 
 func firstLine(s string) string {
 	if i := strings.IndexByte(s, '\n'); i >= 0 {
